@@ -485,7 +485,7 @@ func runC13(c *Ctx, d c13Desc) {
 			r := e.parked.Wait(3 * time.Second)
 			c.Check(r != nil && r.Status == 200 && parseExtEvent(r.Body).EventType == "INVOKE", "subscriptions_as_registered", "C13/subscriber-not-served", "an INVOKE subscriber (per accepted registration) got no event", e.name)
 		} else {
-			time.Sleep(300 * time.Microsecond)
+			time.Sleep(3 * time.Millisecond)
 			c.Check(!e.parked.Done(), "subscriptions_as_registered", "C13/non-subscriber-served", "an extension without an accepted INVOKE subscription got an event (partial subscription kept after a refused register?)", e.name)
 		}
 	}
